@@ -83,3 +83,13 @@ Example phantom_points_extreme :
 Proof. vm_compute; reflexivity. Qed.
 Example delta_interp_example : delta_interp 0 100 (10 * 65536) (130 * 65536) 50 0 = Some 4587510.
 Proof. vm_compute; reflexivity. Qed.
+
+(* ---- sparse bit set: a filled root of the tallest BF4 tree with a bias ends at u32::MAX (saturating) ---- *)
+Example sbs_filled_root_bf4 : sbs_filled_node 4 16 32 1114111 [] = Some (Some (32, 1114111))
+  /\ sbs_filled_node 4 16 1 4294967295 [3] = Some (Some (3221225473, 4294967295))
+  /\ sbs_filled_node 8 11 4294967295 4294967295 [] = Some (Some (4294967295, 4294967295))
+  /\ sbs_filled_node 32 7 1 1114111 [31] = Some None.
+Proof. repeat split; vm_compute; reflexivity. Qed.
+Example sbs_bounds_cover_the_decoder : 2 ^ 31 <= 9223372036854775808 /\ 4 ^ 16 <= 9223372036854775808
+  /\ 8 ^ 11 <= 9223372036854775808 /\ 32 ^ 7 <= 9223372036854775808.
+Proof. repeat split; vm_compute; discriminate. Qed.
